@@ -50,7 +50,8 @@ def findsun(time: "Time") -> np.ndarray:
     sun_pos_eci = np.vstack((sun_pos_x, sun_pos_y, sun_pos_z)).T
 
     # Rotate from inertial to non inertial system (ECI to ECEF)
-    sun_pos_ecef = np.squeeze(rotation.R3(np.deg2rad(gstr)) @ sun_pos_eci.T)
+    # (one rotation per epoch: for n epochs R3 is (n, 3, 3) and is applied to the n vectors one by one)
+    sun_pos_ecef = np.squeeze((rotation.R3(np.deg2rad(gstr)) @ sun_pos_eci[..., None])[..., 0])
 
     return sun_pos_ecef
 
